@@ -233,6 +233,28 @@ def check_case(ctx, case):
             elif what in ('cholesky', 'eigh'):
                 A = gen_matrix(rng, nprng, layout, spd(nprng, n), p_num=case['p_num'], sym=True)
                 ds = max(max_delta(x) for x in A.ravel())
+                if what == 'cholesky' and case.get('herm') and n >= 2:
+                    # a Hermitian matrix stored the natural way (real diagonal, CObs off the diagonal): the factorisation is
+                    # documented for real matrices only - a complex entry ANYWHERE must lead to a refusal or to a correct factor
+                    i0, j0 = case['herm'][0] % n, case['herm'][1] % n
+                    if i0 == j0:
+                        j0 = (i0 + 1) % n
+                    i0, j0 = min(i0, j0), max(i0, j0)
+                    im = make_obs(rng, nprng, layout, 0.2)
+                    re = A[i0, j0] if isinstance(A[i0, j0], pe.Obs) else make_obs(rng, nprng, layout, float(A[i0, j0]))
+                    A[i0, j0] = pe.CObs(re, im)
+                    A[j0, i0] = pe.CObs(re, -1 * im)
+                    if case.get('herm_first'):
+                        A[0, 0] = pe.CObs(A[0, 0] if isinstance(A[0, 0], pe.Obs) else make_obs(rng, nprng, layout, float(A[0, 0])), 0.0 * im)
+                    try:
+                        Lc = L.cholesky(A)
+                    except Exception:
+                        ctx.count('cholesky-complex-refused')
+                        return probs
+                    LH = np.array([[x.conjugate() if isinstance(x, pe.CObs) else x for x in row] for row in Lc.T], dtype=object)
+                    bad = ident(Lc @ LH, A, ds * n * 4, 'cholesky-complex-accepted-L-LH-not-A')
+                    probs += bad
+                    return probs
                 if what == 'cholesky':
                     Lc = L.cholesky(A)
                     probs += ident(Lc @ Lc.T, A, ds * n * 4, 'L-LT-not-A')
@@ -363,6 +385,9 @@ def gen_case(ctx):
         case['dims'] = [rng.randint(1, 4), rng.randint(1, 4)]
     elif what in ('cholesky', 'eigh'):
         case['n'] = rng.randint(1, 4)
+        if what == 'cholesky' and rng.random() < 0.45:
+            case['herm'] = [rng.randrange(4), rng.randrange(4)]
+            case['herm_first'] = rng.random() < 0.3
     elif what in ('jack', 'einsum'):
         nf = rng.randint(2, 4) if what == 'jack' else 2
         case['dims'] = [rng.randint(1, 4) for _ in range(nf + 1)]
